@@ -17,6 +17,9 @@ extern char g_old_byte;   /* harness-recorded value of a watched pre-state byte 
 typedef unsigned long g_off_t;
 /* frame of a per-descriptor ghost array: every slot other than fd's keeps its value (closed form over the G_NFD slots) */
 #define G_FRAME1(arr, fd, i) (G_IX(fd) == (i) || (arr)[i] == V_OLD((arr)[i]))
+/* the same relative to the entry of a loop (for loop invariants) */
+#define G_LFRAME1(arr, fd, i) (G_IX(fd) == (i) || (arr)[i] == __CPROVER_loop_entry((arr)[i]))
+#define G_LFRAME(arr, fd) (G_LFRAME1(arr, fd, 0) && G_LFRAME1(arr, fd, 1) && G_LFRAME1(arr, fd, 2) && G_LFRAME1(arr, fd, 3) && G_LFRAME1(arr, fd, 4) && G_LFRAME1(arr, fd, 5) && G_LFRAME1(arr, fd, 6) && G_LFRAME1(arr, fd, 7))
 #define G_FRAME(arr, fd) (G_FRAME1(arr, fd, 0) && G_FRAME1(arr, fd, 1) && G_FRAME1(arr, fd, 2) && G_FRAME1(arr, fd, 3) && G_FRAME1(arr, fd, 4) && G_FRAME1(arr, fd, 5) && G_FRAME1(arr, fd, 6) && G_FRAME1(arr, fd, 7))
 extern g_off_t g_fpos[G_NFD];       /* current offset of descriptor fd                        */
 extern size_t g_rd_bytes[G_NFD];    /* bytes delivered by read() on fd so far                 */
